@@ -42,9 +42,10 @@ meta("C01",
      set_samples=["rt_x_dt"])
 
 meta("C02",
-     rule="G3 histories (start document added in arbitrary order incl. forward references, then 4-20 (quick) / 4-60 (thorough) steps of add / rm by name / rm by instance / disconnect / rename / tag edits) over GFA1 and GFA2 pools with forced fan-out; the closed_symmetric walker runs after every outermost mutation; non-trivial = history with a cascading removal or a rename; distinct = hash of the step list",
+     rule="G3 histories (start document added in arbitrary order incl. forward references, then 4-20 (quick) / 4-60 (thorough) steps of add / rm by name / rm by instance / disconnect / rename / tag edits) over GFA1 and GFA2 pools with forced fan-out; the closed_symmetric walker runs after every outermost mutation; extra stratum: the repository's 365 tests run under the same walker (pytest plugin vlib/plug/pytest_walker.py); non-trivial = history with a cascading removal or a rename; distinct = hash of the step list",
      budget={"quick": 25, "thorough": 400},
-     min_counts={"quick": {"invariant_evaluations": 1000, "op:rm": 100, "op:rename": 50, "cascading_removals": 50}})
+     min_counts={"quick": {"invariant_evaluations": 1000, "op:rm": 100, "op:rename": 50, "cascading_removals": 50,
+                           "testsuite_walker_runs": 2000}})
 meta("C05",
      rule="G3 legal histories over GFA1/GFA2 documents; after every successful step the written content is compared with the text model (canonical multiset) and, when the model text is closed, the full observation with that of a Gfa parsed afresh from the model text; non-trivial = history with a cascading removal or a rename",
      budget={"quick": 30, "thorough": 400},
@@ -57,7 +58,8 @@ meta("C08",
 meta("C09",
      rule="G3 histories with ~45% identifier clashes (additions and renames of every identified record type to identifiers in use by the same or another type) and legal renames; unique_names walker after every outermost mutation; model comparison after renames; non-trivial = history with a cross-type clash or a rename",
      budget={"quick": 25, "thorough": 400},
-     min_counts={"quick": {"invariant_evaluations": 1000, "failing_calls": 300, "op:rename": 50}},
+     min_counts={"quick": {"invariant_evaluations": 1000, "failing_calls": 300, "op:rename": 50, "lookups": 5000,
+                           "freed_lookups": 100}},
      set_samples=["clash_shapes"])
 
 meta("C04",
